@@ -60,6 +60,7 @@ MODULES = {
     "C13": (["C13"], [("C05", "C13_leading"), ("C05", "C13_leading_pass")]),
     "C02": (["C02", "E2E"], []),
     "C16": (["C16", "C16b", "C16c"], []),
+    "C18": (["C18", "C18q"], []),
     "C17": (["C17"], [("C03", "C03_parse_total"), ("C03", "C03_compile_total")]),
 }
 ELSEWHERE = {("C05", "C01_words"), ("C05", "C13_leading"), ("C05", "C13_leading_pass")}
@@ -362,7 +363,7 @@ class C02(Prop):
         import os
         from . import core
         if " COK " not in impl:
-            return "the implementation does not produce a program where the property demands one (or the reverse)"
+            return None      # the property speaks about expressions that compile (which ones do: C05, C12)
         lines, meta = semantic_cases(random.Random(7), [(case, impl, model)], 60 if len(case) > 3000 else 300, 1)
         outs = core.run_lines(os.path.join(core.OCAML, "driver"), lines)
         for (c, rec), o in zip(meta, outs):
